@@ -137,6 +137,12 @@ func UpdatePartialFromConfig(cfg *Config, updates map[string]any) (UpdateStatus,
 		return UpdateStatusFailed, fmt.Errorf("%w: %v", ErrUpdateFailed, err)
 	}
 
+	if err := cfg.verifyStored(); err != nil {
+		slog.Error("Updated config would not be loadable from the config file", "error", err)
+		rollback()
+		return UpdateStatusFailed, fmt.Errorf("%w: %v", ErrUpdateFailed, err)
+	}
+
 	if err := cfg.persist(); err != nil {
 		slog.Error("Failed to persist updated config", "error", err)
 		rollback()
